@@ -622,4 +622,121 @@ def run (cfg : Cfg) : St → List Tok → St × List Out
     let (st2, os) := run cfg st1 ts
     (st2, o :: os)
 
+
+/-! ## Bucket tables of the keyed limit scopes, as the sessions of one endpoint use them
+
+Mirrors `limiters.BucketSet.take` / `untake` / `Release` (internal/limits/limiters/bucket.go) under
+`limits.Group.TakeMsg` / `ReleaseMsg` for limiters that never block (the harness gives every semaphore more permits
+than there are sessions): a bucket per key with its `users` count (= permits of its limiters that are out) and its
+age in units of virtual time; a `take` that finds the table over `maxB` first drops every bucket nobody uses
+and that is older than `reap`, and fails (ErrBucketSetFull) if the table is still over `maxB`. -/
+
+structure Bk where
+  key : Nat
+  users : Nat
+  age : Nat
+deriving Repr, DecidableEq
+
+structure BSet where
+  on : Bool
+  maxB : Nat
+  reap : Nat
+  m : List Bk := []
+deriving Repr
+
+def Bk.stale (reap : Nat) (b : Bk) : Bool := b.users == 0 && decide (reap < b.age)
+
+/-- the bucket of key `k` gets one more user (and is fresh again); a key without a bucket gets a new one -/
+def bkTouch (k : Nat) : List Bk → List Bk
+  | [] => [⟨k, 1, 0⟩]
+  | b :: bs => if b.key = k then { b with users := b.users + 1, age := 0 } :: bs else b :: bkTouch k bs
+
+/-- `BucketSet.Release`: the bucket of key `k` (if there is one) loses a user; `true` = its limiter had no
+permit out (`Semaphore.Release` panics: "mismatched Release call") -/
+def bkDrop (k : Nat) : List Bk → List Bk × Bool
+  | [] => ([], false)
+  | b :: bs =>
+    if b.key = k then ({ b with users := b.users - 1 } :: bs, b.users == 0)
+    else ((b :: (bkDrop k bs).1), (bkDrop k bs).2)
+
+/-- `BucketSet.TakeContext` with limiters that grant at once; `false` = ErrBucketSetFull (the reap pass has run) -/
+def BSet.take (t : BSet) (k : Nat) : BSet × Bool :=
+  if !t.on then (t, true) else
+  let m := if t.maxB < t.m.length then t.m.filter (fun b => !b.stale t.reap) else t.m
+  if t.maxB < m.length then ({ t with m := m }, false)
+  else ({ t with m := bkTouch k m }, true)
+
+def BSet.release (t : BSet) (k : Nat) : BSet × Bool :=
+  if !t.on then (t, false) else ({ t with m := (bkDrop k t.m).1 }, (bkDrop k t.m).2)
+
+def BSet.advance (t : BSet) (d : Nat) : BSet := { t with m := t.m.map (fun b => { b with age := b.age + d }) }
+
+/-- permits out for key `k` -/
+def usersOf (k : Nat) (m : List Bk) : Nat := ((m.filter (fun b => b.key = k)).map (·.users)).sum
+
+def BSet.users (t : BSet) (k : Nat) : Nat := usersOf k t.m
+
+def BSet.held (t : BSet) : Nat := (t.m.map (·.users)).sum
+
+/-- an open transaction: session id, key of the `ip` scope, key of the `source` scope -/
+structure BTx where
+  id : Nat
+  ip : Nat
+  src : Nat
+deriving Repr, DecidableEq
+
+structure BSt where
+  hasAll : Bool
+  glob : Nat := 0
+  ip : BSet
+  src : BSet
+  opens : List BTx := []   -- connected sessions with an open transaction
+  idle : List Nat := []    -- connected sessions whose transaction was refused
+  panics : Nat := 0
+deriving Repr
+
+inductive BOp
+  | opn (i ip src : Nat)
+  | cls (i : Nat) (data : Bool) (rset : Bool)
+  | adv (d : Nat)
+deriving Repr
+
+def BSt.connected (s : BSt) (i : Nat) : Bool := s.opens.any (fun t => t.id = i) || s.idle.contains i
+
+/-- the open transaction of session `i`, and the others -/
+def takeTx (i : Nat) : List BTx → Option (BTx × List BTx)
+  | [] => none
+  | t :: ts => if t.id = i then some (t, ts) else (takeTx i ts).map (fun r => (r.1, t :: r.2))
+
+/-- `Group.TakeMsg`: all, ip, source; what was taken is given back when a later scope refuses -/
+def BSt.takeMsg (s : BSt) (ip src : Nat) : BSt × Bool :=
+  if !(s.ip.take ip).2 then ({ s with ip := (s.ip.take ip).1 }, false) else
+  if !((s.src.take src).2) then
+    ({ s with ip := ((s.ip.take ip).1.release ip).1, src := (s.src.take src).1,
+              panics := s.panics + (if ((s.ip.take ip).1.release ip).2 then 1 else 0) }, false)
+  else ({ s with glob := s.glob + 1, ip := (s.ip.take ip).1, src := (s.src.take src).1 }, true)
+
+/-- `Group.ReleaseMsg` from `cleanSession` -/
+def BSt.releaseMsg (s : BSt) (tx : BTx) : BSt :=
+  { s with glob := s.glob - 1, ip := (s.ip.release tx.ip).1, src := (s.src.release tx.src).1,
+           panics := s.panics + (if s.glob == 0 || (s.ip.release tx.ip).2 || (s.src.release tx.src).2 then 1 else 0) }
+
+def bFullCode : Nat := 451
+
+/-- one step of a session history; the reply of the command that decides (0 = none) -/
+def BSt.step (s : BSt) : BOp → BSt × Nat
+  | .opn i ip src =>
+    if s.connected i then (s, 0) else
+    if (s.takeMsg ip src).2 then ({ (s.takeMsg ip src).1 with opens := s.opens ++ [⟨i, ip, src⟩] }, 250)
+    else ({ (s.takeMsg ip src).1 with idle := s.idle ++ [i] }, bFullCode)
+  | .cls i data rset =>
+    match takeTx i s.opens with
+    | none => ({ s with idle := s.idle.filter (· ≠ i) }, 0)
+    | some (tx, rest) => ({ s.releaseMsg tx with opens := rest }, if data || rset then 250 else 0)
+  | .adv d => ({ s with ip := s.ip.advance d, src := s.src.advance d }, 0)
+
+def BSt.steps (s : BSt) : List BOp → BSt
+  | [] => s
+  | o :: os => (s.step o).1.steps os
+
 end MaddyVerif.Session
